@@ -171,7 +171,7 @@ def check_direct(case, ctx):
                 if not np.where(Mm_, cd_, 0.0).sum() > 0:
                     # the moment image is empty as well
                     names += ['xcentroid', 'ycentroid', 'semimajor_sigma',
-                              'orientation', 'fwhm', 'kron_flux']
+                              'orientation', 'fwhm']
                 for name in names:
                     val = g(name)
                     if not math.isnan(val):
